@@ -167,6 +167,24 @@ _PROPERTY = ("property", "cached_property", "functools.cached_property")
 _FACTORIES = {"dict": dict, "list": list, "set": set, "tuple": tuple}
 _AUG = {ast.Add: operator.add, ast.Sub: operator.sub, ast.Mult: operator.mul}
 _DICT_METHODS = ("pop", "setdefault", "update", "clear", "copy", "popitem")
+# the logging configuration is an ENVIRONMENT INPUT of the wrapper (logging.json is user-editable; an embedding without Rally's set-up runs at Python's default WARNING): a query of the
+# logger's level has more than one possible answer, and the property must hold under each. Everything is evaluated at the stock level first and - where a query was consulted - again at the others.
+_LOG_LEVELS = {"NOTSET": 0, "DEBUG": 10, "INFO": 20, "WARNING": 30, "WARN": 30, "ERROR": 40, "CRITICAL": 50, "FATAL": 50}
+_LOG_STOCK = 20  # Rally's stock configuration: INFO
+_LOG_OTHER = (10, 30, 60)  # everything enabled / Python's default / nothing enabled
+
+
+def _plain(v, depth=0):
+    """a comparable rendering of a representative value (objects the call built by their fields)"""
+    if isinstance(v, Record) and depth < 4:
+        return (type(v).__name__, tuple(sorted((k, _plain(x, depth + 1)) for k, x in v.fields.items())))
+    if isinstance(v, dict) and depth < 4:
+        return ("dict", tuple(sorted((repr(k), _plain(x, depth + 1)) for k, x in v.items())))
+    if isinstance(v, (list, tuple)) and depth < 4:
+        return (type(v).__name__, tuple(_plain(x, depth + 1) for x in v))
+    if v is None or isinstance(v, (bool, int, float, str, range)):
+        return repr(v)
+    return type(v).__name__
 
 
 class Interp:
@@ -189,6 +207,10 @@ class Interp:
         self._hnames = {}
         self.unknown_classes = []
         self._raw = None
+        self.log_level = _LOG_STOCK  # the answer of the environment for this evaluation
+        self.log_queries = []  # the level queries consulted since the caller cleared the list
+        self._logger_attrs = None
+        self._root = None
         self.reset()
 
     def reset(self):
@@ -218,6 +240,19 @@ class Interp:
             return mev(e, env)
         except CannotEval:
             pass
+        prev, self._root = self._root, e
+        try:
+            return self._xev(e, env)
+        finally:
+            self._root = prev
+
+    def asked(self, n):
+        """record a query of the logging configuration (n: node of the working copy of the expression under evaluation) by its node in the analysed tree"""
+        t = u(n)
+        orig = next((x for x in ast.walk(self._root) if type(x) is type(n) and getattr(x, "lineno", None) is not None and u(x) == t), n) if self._root is not None else n
+        self.log_queries.append(orig)
+
+    def _xev(self, e, env):
         interp = self
 
         class Sub(ast.NodeTransformer):
@@ -242,6 +277,41 @@ class Interp:
         ast.fix_missing_locations(c)
         return mev(c, env)
 
+    def is_logger(self, e, env):
+        """does this expression denote a logger: logging.getLogger(...), the logging module / its root logger, a name or attribute of the wrapper bound to logging.getLogger(...) (in a constructor of
+        the MRO, at class or module level), or - as for logging statements - a name that says so"""
+        def get_logger(x):
+            return isinstance(x, ast.Call) and (self.full_name(x.func, {}) or "") in ("logging.getLogger", "logging.getLoggerClass")
+        if get_logger(e):
+            return True
+        d = dotted(e) or ""
+        if d and self.rn.imports.get(d.split(".")[0]) == "logging" and d.split(".")[0] not in env and d.count(".") <= 1:
+            return d.count(".") == 0 or d.endswith(".root")
+        if isinstance(e, ast.Name) and e.id not in env:
+            return get_logger(self.rn.module_constant(e.id)) or "log" in e.id.lower()
+        if isinstance(e, ast.Attribute) and isinstance(e.value, ast.Name) and isinstance(env.get(e.value.id), (_Self, _Cls)):
+            if self._logger_attrs is None:
+                self._logger_attrs = set()
+                for c in self.tab.mro(self.ci):
+                    for n in ast.walk(c.node):
+                        if isinstance(n, ast.Assign) and get_logger(n.value):
+                            self._logger_attrs |= {t.attr if isinstance(t, ast.Attribute) else t.id for t in n.targets if isinstance(t, (ast.Attribute, ast.Name))}
+            return e.attr in self._logger_attrs or "logger" in e.attr.lower()
+        if isinstance(e, ast.Name):
+            return "logger" in e.id.lower() and not isinstance(env.get(e.id), (Record, dict, list, tuple, int, float, str))
+        return False
+
+    def level_of(self, e, env):
+        d = dotted(e) or ""
+        if d.count(".") == 1 and self.rn.imports.get(d.split(".")[0]) == "logging" and d.split(".")[1] in _LOG_LEVELS:
+            return _LOG_LEVELS[d.split(".")[1]]
+        if isinstance(e, ast.Name) and e.id not in env and self.rn.imports.get(e.id, "").startswith("logging.") and self.rn.imports[e.id].split(".")[1] in _LOG_LEVELS:
+            return _LOG_LEVELS[self.rn.imports[e.id].split(".")[1]]
+        v = mev(e, env)
+        if not _is_int(v):
+            raise CannotEval(f"logging level {u(e)[:30]}")
+        return v
+
     def _attempt(self):
         self.ncalls += 1
         if self.event is None:
@@ -254,6 +324,16 @@ class Interp:
         """(value,) of a call the sequencer interprets itself, None for everything else (left to minieval)"""
         f = n.func
         try:
+            if isinstance(f, ast.Attribute) and f.attr in ("isEnabledFor", "getEffectiveLevel") and not n.keywords and self.is_logger(f.value, env):
+                # a query of the logging configuration: answered by the level this evaluation runs under (the caller evaluates under every level once a query was consulted)
+                if f.attr == "isEnabledFor" and len(n.args) == 1:
+                    lvl = self.level_of(n.args[0], env)
+                    self.asked(n)
+                    return (lvl >= self.log_level,)
+                if f.attr == "getEffectiveLevel" and not n.args:
+                    self.asked(n)
+                    return (self.log_level,)
+                return None
             if isinstance(f, ast.Attribute) and isinstance(f.value, ast.Name) and isinstance(env.get(f.value.id), _Self):
                 if f.attr in self.delegate_attrs:
                     return (_Coro(self._attempt),)
@@ -489,6 +569,11 @@ class Interp:
 
     def attribute(self, n, env):
         """(value,) of an attribute read that is not a stored field: a property of the wrapper / of a settings object (interpreted), a class-level attribute with a computable value"""
+        if n.attr in _LOG_LEVELS and isinstance(n.value, ast.Name) and n.value.id not in env and self.rn.imports.get(n.value.id) == "logging":
+            return (_LOG_LEVELS[n.attr],)
+        if n.attr == "level" and self.is_logger(n.value, env) and not isinstance(self.peek(n.value, env), (Record, dict)):
+            self.asked(n)
+            return (self.log_level,)
         recv = self.peek(n.value, env)
         if isinstance(recv, Record) and n.attr in recv.fields:
             return None
@@ -1001,28 +1086,46 @@ def run(chk):
 
     worlds = {}
 
-    def world(params, ctor=None):
-        """the frame at the attempt loop for this parameter dict and these constructor settings (attr -> value)"""
-        k = (repr(sorted(params.items())), repr(sorted((ctor or {}).items())))
+    def world(params, ctor=None, lvl=_LOG_STOCK):
+        """the frame at the attempt loop for this parameter dict and these constructor settings (attr -> value), evaluated at this logging level"""
+        k = (repr(sorted(params.items())), repr(sorted((ctor or {}).items())), lvl)
         if k in worlds:
             return worlds[k]
+        outer, interp.log_level = interp.log_level, lvl
+        try:
+            return world_(params, ctor, lvl, k)
+        finally:
+            interp.log_level = outer
+
+    def world_(params, ctor, lvl, k):
         w = World()
+        w.lvl, w.ctor, w.alts = lvl, ctor, {}
         w.before, w.params = dict(params), dict(params)
         w.rec = _Self(**{**settings, **(ctor or {})})
-        env = {**interp.globals, pnames[0]: w.rec, **{p: _OPAQUE for p in pnames[1:-1]}, pv: w.params}
-        interp.reset()
-        interp.event, interp.stop_node, interp.force = None, L, None
-        try:
-            interp.exec_block(call.body, env)
-        except _StopAt as s_:
-            w.env = s_.env
-        except _Signal as s_:
-            raise CannotEval(f"the attempt loop is not reached for params={params}: {type(s_).__name__[1:].lower()}")
-        else:
+
+        def frame(rec, pdict):
+            env = {**interp.globals, pnames[0]: rec, **{p: _OPAQUE for p in pnames[1:-1]}, pv: pdict}
+            interp.reset()
+            interp.event, interp.stop_node, interp.force = None, L, None
+            try:
+                interp.exec_block(call.body, env)
+            except _StopAt as s_:
+                return s_.env
+            except _Signal as s_:
+                raise CannotEval(f"the attempt loop is not reached for params={params}: {type(s_).__name__[1:].lower()}")
+            finally:
+                interp.stop_node = None
             raise CannotEval(f"the attempt loop is not reached for params={params}")
-        finally:
-            interp.stop_node = None
-        w.seq = _as_seq(interp.xev(L.iter, w.env)) if is_for else _Seq(None, None)
+
+        def seq_of(env):
+            return _as_seq(interp.xev(L.iter, env)) if is_for else _Seq(None, None)
+
+        interp.log_queries = []
+        w.env = frame(w.rec, w.params)
+        w.seq = seq_of(w.env)
+        w.asked = list(interp.log_queries)
+        for q in w.asked:
+            query_sites[id(q)] = q
         w.fill, w.dead = [], None
         if w.seq.n is not None and w.seq.n < sys.maxsize // 2:
             w.n, w.unbounded = w.seq.n, False
@@ -1036,9 +1139,53 @@ def run(chk):
                     w.n, w.unbounded = pos + 1, False
                     break
         worlds[k] = w
+        if w.asked and lvl == _LOG_STOCK:
+            # (O16.8) the code up to the loop consulted the logging configuration: the attempt numbers, the wrapper and the caller's dict at the loop must be the same under every answer
+            # (a local that merely remembers the answer may differ: every attempt is compared below in the frame of its own level)
+            def view(x):
+                return {"the number of attempts": "unbounded" if x.unbounded else x.n, "the attempt numbers": [x.seq.at(i) for i in range(min(x.n, 3))] if is_for else None,
+                        "the wrapper": _plain(x.rec), "the caller's parameter dict": _plain(x.params)}
+            for other in _LOG_OTHER:
+                w.alts[other] = w2 = world(params, ctor, other)
+                diff = [k_ for k_, v in view(w).items() if view(w2)[k_] != v]
+                if diff:
+                    diverge(w.asked[0], f"params={params}: at the attempt loop {diff[0]} is {view(w)[diff[0]]} at logging level {_LOG_STOCK} and {view(w2)[diff[0]]} at level {other}")
         return w
 
     observed_calls = []
+    divergences, query_sites = [], {}  # (O16.8) [(query node, text)], id -> node of every level query consulted
+
+    def diverge(node, text):
+        if not any(n is node and t == text for n, t in divergences):
+            divergences.append((node, text))
+
+    def attempt(w, pos, event, force=None, probe=False):
+        """outcome of the attempt at iteration index pos of world w when the delegate produces `event`: evaluated at the stock logging level; if that evaluation consulted the logging
+        configuration, evaluated again at the other levels and compared (O16.8) - the tables judge the stock outcome, the comparison judges that it is THE outcome"""
+        outer, interp.log_level = interp.log_level, w.lvl
+        try:
+            interp.log_queries = []
+            o = attempt_at(w, pos, event, force, probe)
+            asked = list(interp.log_queries)
+            for q in asked:
+                query_sites[id(q)] = q
+            if w.lvl == _LOG_STOCK and (asked or w.alts):
+                def view(x):
+                    return (x.kind, x.note, "the attempt's own result" if x.value is event[1] and event[0] == "return" else _plain(x.value), [_plain(s_[0]) for s_ in x.sleeps], x.ncalls)
+                for lvl in _LOG_OTHER:
+                    w2 = w.alts.get(lvl, w)
+                    if w2.n != w.n:
+                        continue  # (reported where the frames are compared)
+                    interp.log_level = lvl
+                    o2 = attempt_at(w2, pos, event, force, True)
+                    asked += [q for q in interp.log_queries if not any(q is x for x in asked)]
+                    if view(o) != view(o2):
+                        what = f"{event[1]} raised" if event[0] == "raise" else f"result {event[1]!r}"
+                        diverge((asked or w.asked)[0], f"attempt {pos + 1} of {'an unbounded number' if w.unbounded else w.n}, {what}, params={w.before}: at logging level {_LOG_STOCK} it {o.text()} "
+                                f"(sleeps {[s_[0] for s_ in o.sleeps]}, {o.ncalls} call(s) of the delegate), at level {lvl} it {o2.text()} (sleeps {[s_[0] for s_ in o2.sleeps]}, {o2.ncalls} call(s))")
+        finally:
+            interp.log_level = outer
+        return o
 
     def fill_to(w, pos):
         """(`while` loop) outcomes for the attempts before iteration index pos that make the loop go on: the first retried one of a few retryable outcome classes, per world"""
@@ -1055,8 +1202,8 @@ def run(chk):
             else:
                 w.dead = i + 1
 
-    def attempt(w, pos, event, force=None, probe=False):
-        """outcome of the attempt at iteration index pos of world w when the delegate produces `event`"""
+    def attempt_at(w, pos, event, force=None, probe=False):
+        """outcome of the attempt at iteration index pos of world w when the delegate produces `event`, at the logging level the interpreter is set to"""
         if not 0 <= pos < w.n:
             raise CannotEval(f"no attempt number {pos + 1}")
         if not is_for:
@@ -1844,6 +1991,21 @@ def run(chk):
                f"registered runner: {short(v, 70)}" + (f" built with {ctor}" if ctor else "") + ("; " + "; ".join(bad[:2]) if bad else ""),
                key=f"{_R}:register_default_runners:retry-defaults:{op}")
 
+    # ---- O16.8 the logging configuration is an environment input ------------------------------------------------------------------------------------------
+    chk.rule("O16.8", "what the wrapper does per attempt - next attempt / return / raise, the value returned, the awaited sleep(retry-wait-period), the calls of the delegate, the frame at the attempt "
+             "loop - is the same under every answer of the logging configuration: a query of the logger's level (isEnabledFor / getEffectiveLevel / .level) is an environment input "
+             f"(levels {(_LOG_STOCK,) + _LOG_OTHER} evaluated), logging may only decide what is logged", 1,
+             "with a user-edited logging.json (or Python's default WARNING) retries happen without the wait, more or fewer attempts are made, or another result comes back")
+    for q in {id(n): n for n, _ in divergences}.values():
+        query_sites.setdefault(id(q), q)
+    chk.ob("O16.8", "every evaluated attempt (and the code up to the attempt loop) does the same at every logging level", not divergences, divergences[0][0] if divergences else L,
+           (f"{len(query_sites)} level query site(s) consulted by the evaluated attempts" if not divergences else
+            f"`{short(divergences[0][0], 60)}` decides more than logging: {divergences[0][1]}" + (f" (+{len(divergences) - 1} more)" if len(divergences) > 1 else "")),
+           key=f"{_R}:Retry.__call__:logging-independent")
+    for q in query_sites.values():
+        mine = [t for n, t in divergences if n is q]
+        chk.ob("O16.8", f"level query `{short(q, 50)}` guards nothing but logging", not mine, q, "" if not mine else mine[0], key=f"{_R}:Retry.__call__:logging-independent:{short(q, 50)}")
+
 
 from sa.selftest import V  # noqa: E402
 
@@ -1953,6 +2115,13 @@ def _counted(name, kind, rule=None, none="None", unbounded="itertools.count()", 
                 "        sleep_time = params.get(\"retry-wait-period\", 0.5)\n        retry_on_timeout = params.get(\"retry-on-timeout\", True)\n")
     return [V(name, kind, _R, "import contextvars\n", "import contextvars\nimport itertools\n", rule), V("", kind, _R, _SETTINGS, settings, rule),
             V("", kind, _R, _LOOP, f"        for {target} in {loop}:\n            last_attempt = {last}\n{extra}", rule)]
+
+_LOG_ARM = ("                    else:\n                        self.logger.info(\n                            \"[%s] has returned with an error: %s. Retrying in [%.2f] seconds.\",\n"
+            "                            repr(self.delegate),\n                            return_value,\n                            sleep_time,\n                        )\n"
+            "                        await asyncio.sleep(sleep_time)\n")
+_LOG_408 = ("                if e.status_code == 408:\n                    self.logger.info(\"[%s] has timed out. Retrying in [%.2f] seconds.\", repr(self.delegate), sleep_time)\n"
+            "                    await asyncio.sleep(sleep_time)\n")
+_LOG_TMO = "\n\n                self.logger.info(\"[%s] has timed out. Retrying in [%.2f] seconds.\", repr(self.delegate), sleep_time)\n"
 
 VARIANTS = [
     V("F6: other transport errors swallowed", "break", _R, "                # any other transport error (e.g. a serialization error) is neither a timeout nor a connection error: never retry it\n                raise e",
@@ -2187,4 +2356,22 @@ VARIANTS = [
     V("get-async-search registered from a table of (operation type, runner, waits until success)", "keep", _R, _REG_GAS,
       "    for operation_type, polled_runner, until_success in [(track.OperationType.GetAsyncSearch, GetAsyncSearch(), True)]:\n"
       "        register_runner(operation_type, Retry(polled_runner, retry_until_success=until_success), async_runner=True)\n"),
+    # O16.8: the logging configuration is an environment input
+    V("m18: the wait after an unsuccessful result only under isEnabledFor(INFO)", "break", _R, _LOG_ARM, _LOG_ARM.replace("                    else:\n", "                    elif self.logger.isEnabledFor(logging.INFO):\n"), "O16.8"),
+    V("408 arm: log line and wait both under a getEffectiveLevel() test", "break", _R, _LOG_408,
+      "                if e.status_code == 408:\n                    if self.logger.getEffectiveLevel() <= logging.INFO:\n"
+      "                        self.logger.info(\"[%s] has timed out. Retrying in [%.2f] seconds.\", repr(self.delegate), sleep_time)\n                        await asyncio.sleep(sleep_time)\n", "O16.8"),
+    V("an unsuccessful result is handed back instead of retried when nothing would be logged", "break", _R, "                    if return_value.get(\"success\", True):\n",
+      "                    if return_value.get(\"success\", True) or not self.logger.isEnabledFor(logging.CRITICAL):\n", "O16.8"),
+    V("one more attempt when debugging (level query remembered in a local before the loop)", "break", _R, _LOOP,
+      "        verbose = self.logger.isEnabledFor(logging.DEBUG)\n        if verbose:\n            max_attempts += 1\n" + _LOOP, "O16.8"),
+    [V("the wait skipped by a flag computed from the logger's level before the loop", "break", _R, _LOOP, "        quiet = self.logger.getEffectiveLevel() > logging.INFO\n" + _LOOP, "O16.8"),
+     V("", "break", _R, _LOG_TMO + "                await asyncio.sleep(sleep_time)\n", "\n\n                if quiet:\n                    continue" + _LOG_TMO + "                await asyncio.sleep(sleep_time)\n")],
+    V("only the log line of the unsuccessful-result arm under isEnabledFor(INFO), the wait after it", "keep", _R, _LOG_ARM,
+      "                    else:\n                        if self.logger.isEnabledFor(logging.INFO):\n                            self.logger.info(\"[%s] has returned with an error: %s. Retrying in [%.2f] seconds.\", repr(self.delegate), return_value, sleep_time)\n"
+      "                        await asyncio.sleep(sleep_time)\n"),
+    V("timeout arm: log line under a getEffectiveLevel() test, wait outside", "keep", _R, _LOG_TMO, "\n\n                if self.logger.getEffectiveLevel() <= logging.INFO:\n    " + _LOG_TMO.lstrip("\n")),
+    [V("level query remembered in a local before the loop, used for logging only", "keep", _R, _LOOP, "        verbose = self.logger.isEnabledFor(logging.DEBUG)\n" + _LOOP),
+     V("", "keep", _R, "                        self.logger.debug(\"%s has returned successfully\", repr(self.delegate))\n",
+       "                        if verbose:\n                            self.logger.debug(\"%s has returned successfully\", repr(self.delegate))\n")],
 ]
